@@ -379,11 +379,16 @@ class Search:
     def _confirm(self, r, chunk_results):
         """Re-execute a violation alone in a pristine child."""
         sc = r["scenario"]
-        alone = run_pristine(self.mod, sc)
-        if alone.get("verdict") == "violation" and alone.get("oracle") == r.get("oracle"):
-            r["confirmed"] = "alone"
-            r["digest_alone"] = alone.get("digest")
-            return r
+        # up to three attempts: a defect that depends on something the simulator does not own
+        # (CPython heap addresses) need not show in every execution of the same scenario
+        for attempt in range(3):
+            alone = run_pristine(self.mod, sc)
+            if alone.get("verdict") == "violation" and alone.get("oracle") == r.get("oracle"):
+                r["confirmed"] = "alone" if attempt == 0 else f"alone (attempt {attempt + 1})"
+                r["digest_alone"] = alone.get("digest")
+                return r
+            if alone.get("digest") == r.get("digest"):
+                break  # same events, no violation: the chunk's history matters, not chance
         # not reproducible alone: the history is the chunk prefix
         prefix = []
         for x in chunk_results:
